@@ -56,6 +56,8 @@ def to_sx(v):
         return '(' + ' '.join(str(b) for b in v) + ')'
     if isinstance(v, (list, tuple)):
         return '(' + ' '.join(to_sx(x) for x in v) + ')'
+    if isinstance(v, str):
+        return 's:' + v
     raise TypeError('no wire form for %r' % (v,))
 
 
@@ -79,7 +81,7 @@ TR_PREFIXES = {
     'C01': ['ber.encode_object_identifier_subidentifier', 'ber.decode_object_identifier_subidentifier', 'compiler.lowest_set_bit'],
     'C03': ['ber.encode_length_definite', 'ber.encode_tag'],
     'C05': ['per.'],
-    'C06': ['oer.encode_tag'],
+    'C06': ['oer.'],
     'C09': ['c_uper.'],
     'C10': ['c_oer.'],
     'C15': ['ber.encode_length_definite', 'ber.encode_tag'],
@@ -140,6 +142,64 @@ def encoder_op(rng, e):
     return m, []
 
 
+OBJ_FIELDS = {'oer.Encoder': ['number_of_bits', 'value'], 'oer.Decoder': ['number_of_bits', 'total_number_of_bits', 'value'],
+              'per.Decoder': ['number_of_bits', 'total_number_of_bits', 'value']}
+PURE_METHODS = {'number_of_bytes', 'number_of_read_bits', 'peek_bit'}
+
+
+def oer_encoder_op(rng, e):
+    m = rng.choice(['append_bit', 'append_non_negative_binary_integer', 'append_bits', 'append_u8', 'append_bytes', 'append_length_determinant',
+                    'append_integer', 'append_unsigned_integer', 'align', 'number_of_bytes', '__iadd__'])
+    if m == 'append_bit':
+        return m, [rng.randint(0, 1)]
+    if m == 'append_non_negative_binary_integer':
+        w = small(rng, 80)
+        return m, [rng.getrandbits(w) if w else 0, w]
+    if m == 'append_bits':
+        d = octets(rng, rng.choice([1, 2, 3, 9]))
+        return m, [d, rng.randint(0, 8 * len(d))]
+    if m == 'append_u8':
+        return m, [rng.randrange(256)]
+    if m == 'append_bytes':
+        return m, [octets(rng, rng.choice([1, 2, 5]))]
+    if m == 'append_length_determinant':
+        return m, [rng.choice([nat(rng), 2 ** (8 * 127) - 1, 2 ** (8 * 127), 2 ** (8 * 127) + 5])]
+    if m == 'append_integer':
+        return m, [anyint(rng)]
+    if m == 'append_unsigned_integer':
+        return m, [nat(rng)]
+    return m, []
+
+
+def oer_decoder_op(rng, d):
+    m = rng.choice(['align', 'number_of_read_bits', 'skip_bits', 'peek_bit', 'read_bit', 'read_bits', 'read_byte', 'read_bytes',
+                    'read_non_negative_binary_integer', 'read_length_determinant', 'read_integer', 'read_unsigned_integer', 'read_tag'])
+    if m in ('skip_bits', 'read_non_negative_binary_integer'):
+        return m, [rng.choice([0, 1, 3, 7, 8, 9, 16, d.number_of_bits, d.number_of_bits + 1, rng.randint(0, 40)])]
+    if m == 'read_bits':
+        return m, [rng.choice([1, 3, 7, 8, 9, 16, max(1, d.number_of_bits), d.number_of_bits + 1, rng.randint(1, 40)])]
+    if m == 'read_bytes':
+        return m, [rng.choice([1, 2, 3, max(1, d.number_of_bits // 8), d.number_of_bits // 8 + 1])]
+    return m, []
+
+
+def per_decoder_op(rng, d):
+    m = rng.choice(['align_always', 'align', 'number_of_read_bits', 'skip_bits', 'read_bit', 'read_bits', 'read_bytes',
+                    'read_non_negative_binary_integer', 'read_length_determinant', 'read_normally_small_non_negative_whole_number',
+                    'read_normally_small_length', 'read_constrained_whole_number', 'read_unconstrained_whole_number'])
+    if m in ('skip_bits', 'read_non_negative_binary_integer'):
+        return m, [rng.choice([0, 1, 3, 7, 8, 9, 16, d.number_of_bits, d.number_of_bits + 1, rng.randint(0, 40)])]
+    if m == 'read_bits':
+        return m, [rng.choice([1, 3, 7, 8, 9, 16, max(1, d.number_of_bits), d.number_of_bits + 1, rng.randint(1, 40)])]
+    if m == 'read_bytes':
+        return m, [rng.choice([1, 2, 3, max(1, d.number_of_bits // 8), d.number_of_bits // 8 + 1])]
+    if m == 'read_constrained_whole_number':
+        lo = anyint(rng)
+        w = rng.choice([1, 2, 255, 256, 257, 65535, 65536, 65537, nat(rng) % (2 ** 40) + 1])
+        return m, [lo, lo + w - 1, (w - 1).bit_length()]
+    return m, []
+
+
 def run(sink, prefixes, seed, n_fn=300, n_seq=60, seq_len=25):
     """sink: Ctx or Part (count / disagreement / case).  prefixes: which translated keys to validate, e.g. ['per.', 'ber.encode_tag']."""
     if not os.path.exists(TRDRIVER):
@@ -197,6 +257,51 @@ def run(sink, prefixes, seed, n_fn=300, n_seq=60, seq_len=25):
                 requests.append(req)
                 expected.append(exp)
                 labels.append((key, args))
+    for cls_key, gen in (('oer.Encoder', oer_encoder_op), ('oer.Decoder', oer_decoder_op), ('per.Decoder', per_decoder_op)):
+        if not any(cls_key.startswith(p) or p.startswith(cls_key) for p in prefixes):
+            continue
+        mod = importlib.import_module(MODULES[cls_key.split('.')[0]])
+        cls = getattr(mod, cls_key.split('.')[1])
+        fields = OBJ_FIELDS[cls_key]
+        for sq in range(n_seq):
+            obj = cls() if cls_key.endswith('Encoder') else cls(octets(rng, rng.choice([0, 1, 2, 3, 5, 9, 20, 140])))
+            for step in range(seq_len):
+                m, args = gen(rng, obj)
+                before = [getattr(obj, f) for f in fields]
+                key = cls_key + '.' + m
+                if m == '__iadd__':
+                    o = cls()
+                    for _ in range(rng.randint(0, 3)):
+                        om, oargs = gen(rng, o)
+                        if om != '__iadd__':
+                            try:
+                                getattr(o, om)(*oargs)
+                            except Exception:
+                                pass
+                    req = key + '\t' + to_sx(before) + '\t' + to_sx([getattr(o, f) for f in fields])
+                    obj += o
+                    exp = to_sx([getattr(obj, f) for f in fields])
+                    failed = False
+                else:
+                    req = key + '\t' + '\t'.join([to_sx(before)] + [to_sx(a) for a in args])
+                    failed = False
+                    try:
+                        r = getattr(obj, m)(*args)
+                        after = [getattr(obj, f) for f in fields]
+                        if m in PURE_METHODS:
+                            exp = to_sx(r)
+                        elif r is None:
+                            exp = to_sx(after)
+                        else:
+                            exp = to_sx([after, r])
+                    except Exception as ex:
+                        exp = '(err %s)' % type(ex).__name__
+                        failed = True
+                requests.append(req)
+                expected.append(exp)
+                labels.append((key, args))
+                if failed:
+                    break                                    # the object may be half-updated after an exception
     if not requests:
         return
     p = subprocess.run([TRDRIVER], input='\n'.join(requests) + '\n', stdout=subprocess.PIPE, stderr=subprocess.PIPE, text=True, timeout=600)
